@@ -77,8 +77,17 @@ Eval vm_compute in im.
             for k in range(6 if ctx.tier == "quick" else 40):
                 hyp_cases.append(("H", "H %d %d %d 2 %s" % (rng.randrange(1, 10**6), ALLF if k % 2 else rng.randrange(0, ALLF + 1), 1 + rng.randrange(5), st)))
     allc = cases + hyp_cases
-    rc, out, err = ctx.run(exe, "\n".join(c[1] for c in allc) + "\n", timeout=1500)
-    lines = out.strip().split("\n")
+    # the driver is single-threaded and every case is independent: run 8 chunks side by side
+    from concurrent.futures import ThreadPoolExecutor
+    nchunk = 8
+    chunks = [allc[i::nchunk] for i in range(nchunk)]
+    allc = [c for ch in chunks for c in ch]
+    with ThreadPoolExecutor(max_workers=nchunk) as ex:
+        res = list(ex.map(lambda ch: ctx.run(exe, "\n".join(c[1] for c in ch) + "\n", timeout=1500) if ch else (0, "", ""), chunks))
+    rc = next((r[0] for r in res if r[0] != 0), 0)
+    err = " ".join(r[2][-200:] for r in res if r[0] != 0)
+    lines = [l for r in res for l in r[1].strip().split("\n") if l != "" or r[1].strip() != ""]
+    lines = [l for l in lines if l != ""]
     if rc != 0 or len(lines) != len(allc):
         ctx.broken.append(("correspondence", "driver c04_pipeline failed", "rc=%s lines=%d/%d %s" % (rc, len(lines), len(allc), err[-500:])))
         return
